@@ -6,7 +6,7 @@ class C31(Spec):
     drv = "drv_c31"
     harness = "h_c31"
     required_theorems = ("C31.core_iff_touches", "C31.exec_ok_not_blocked", "C31.pool_rejects_always",
-                         "C31.spelling_invariant", "C31.core_spelling_invariant", "C31.old_pool_admits_proxied_blocked",
+                         "C31.spelling_invariant", "C31.realExec_user_evm", "C31.core_spelling_invariant", "C31.old_pool_admits_proxied_blocked",
                          "C31.producer_skips_blocked", "C31.delay_rejects_always")
     quick_timeout = 1200
     level_text = ("Lean theorems about the model of the account blacklist: the four-position check "
@@ -19,7 +19,7 @@ class C31(Spec):
                   "submission (Ethereum sign id, To = exec.proxyExecAddress, real executor evm, payload Para decodes as a "
                   "transaction) whose inner transaction does - full after fix 1445781 in /repo (found by this check; the old pool "
                   "is kept as a regression witness). "
-                  "Tie: types.CheckTxBlockedAccount/Immediate on every position x 9 spellings x blacklist entries in the same "
+                  "An EVM position is decided by the modelled GetRealExecName (evm, user.evm.<name>, user.p.<title>.evm, user.p.<title>.user.evm.<name>; not xevm, user.evmx, user.write.evm ...), compared with the real function. Tie: types.CheckTxBlockedAccount/Immediate on every position x 9 spellings x blacklist entries in the same "
                   "spellings x before/at/after activation on a main-chain and a para-chain configuration; on a real testnode "
                   "EventExecTxList receipts, consensus AddTxsToBlock, mempool EventTx replies, EventAddDelayTx and "
                   "block-embedded delayed transactions; the Lean side parses the spellings itself (base58 + SHA-256d, hex).")
